@@ -85,7 +85,9 @@ Sigs == <<  <<>>,
             \* a fully qualified path, an array, a map, nested generics with a tuple, a box, a negative integer, the unit type
             << [n |-> "coin", t |-> "CoinQ"], [n |-> "arr", t |-> "Arr4"] >>,
             << [n |-> "m", t |-> "MapSU"], [n |-> "p", t |-> "OptVecPair"] >>,
-            << [n |-> "b", t |-> "BoxNested"], [n |-> "i", t |-> "I64"], [n |-> "u", t |-> "Unit"] >> >>
+            << [n |-> "b", t |-> "BoxNested"], [n |-> "i", t |-> "I64"], [n |-> "u", t |-> "Unit"] >>,
+            \* a type of the framework's own runtime library: a handle to another contract
+            << [n |-> "peer", t |-> "RemoteH"], [n |-> "x", t |-> "u32"] >> >>
 
 RespShape(j) == CASE Mod(j, 16) = 2 -> "Tup1" [] Mod(j, 16) = 6 -> "VecTup1" [] Mod(j, 16) = 10 -> "Tup2" [] Mod(j, 16) = 14 -> "ArrB"
                   [] Mod(j, 16) = 4 -> "Bin" [] Mod(j, 16) = 12 -> "Str"      \* types that are JSON strings: bytes (base64) and text
